@@ -35,6 +35,9 @@ type Scenario struct {
 	Audio  bool       `json:"audio"`
 	Frames int        `json:"frames"`
 	Keys   []KeyEvent `json:"keys"`
+	// the emulator's debug options (DebugCPU traces to standard output, which is discarded)
+	DebugCPU bool `json:"debug_cpu,omitempty"`
+	DebugLCD bool `json:"debug_lcd,omitempty"`
 	// Host-side perturbations (never part of what must be equal between runs): milliseconds to
 	// sleep on the audio consumer before callback n, and on the emulator's own goroutine at
 	// the end of frame f.
@@ -135,7 +138,14 @@ func Run(s Scenario, romPath string) Trace {
 		}
 	}
 	serial := &bytes.Buffer{}
-	gb := gameboy.New(gameboy.Config{RomFilename: romPath, DisableVideoOutput: !s.Video, DisableAudioOutput: !s.Audio, SerialWriter: serial})
+	if s.DebugCPU {
+		stdout := os.Stdout
+		if null, err := os.OpenFile(os.DevNull, os.O_WRONLY, 0); err == nil {
+			os.Stdout = null
+			defer func() { os.Stdout = stdout; null.Close() }()
+		}
+	}
+	gb := gameboy.New(gameboy.Config{RomFilename: romPath, DisableVideoOutput: !s.Video, DisableAudioOutput: !s.Audio, SerialWriter: serial, DebugCPU: s.DebugCPU, DebugLCD: s.DebugLCD})
 	deliver := func(frame int) {
 		for _, k := range s.Keys {
 			if k.Frame == frame {
